@@ -228,106 +228,120 @@ Definition edge_wild_to_node (n : wnode) (e : wedge) : wnode :=
   | ew => with_wild n (merge_wild (n_wild n) ew)
   end.
 
-Fixpoint calc_node (fuel : nat) (id : str) (path : list pentry) (s : wstate)
-  : list str * option werr * wstate :=
-  match fuel with
-  | O => ([], Some WOutOfFuel, s)
-  | S f =>
-      if mem_str id (ws_visited s) then ([], None, s)
-      else if is_terminal (n_type (node_of (ws_g s) id)) then ([], None, s)
-      else
-        let s := {| ws_g := ws_g s; ws_visited := ws_visited s ++ [id]; ws_deps := ws_deps s |} in
-        let n_edges := length (edges_from (ws_g s) id) in
-        let fix loop (k : nat) (i : nat) (tcs : list str) (s : wstate) : list str * option werr * wstate :=
-          match k with
-          | O =>
-              let '(tcs, r) := from_edges s id tcs in
-              match r with
-              | Ok s => (tcs, None, s)
-              | Err e => (tcs, Some e, s)
-              | Panic _ => (tcs, Some WOutOfFuel, s)
-              end
-          | S k' =>
-              match edge_at (ws_g s) (id, i) with
-              | None => loop k' (S i) tcs s
-              | Some e =>
-                  match e_weights e with
-                  | _ :: _ => loop k' (S i) tcs s
-                  | [] =>
-                      let to := node_of (ws_g s) (e_to e) in
-                      if is_terminal (n_type to) then
-                        let wild := ntype_eqb (n_type to) NWildcard in
-                        let label := if wild then drop_last2 (e_to e) else e_to e in
-                        let e1 := if wild then add_wild_to_edge label e else e in
-                        let s := if wild then upd_node s id (fun n => edge_wild_to_node n e1) else s in
-                        let s := st_g s (set_edge (ws_g s) (id, i) (edge_with_weights e1 [(label, 1)])) in
-                        loop k' (S i) tcs s
-                      else
-                        let '(tc, err, s) := calc_edge f (id, i) path s in
-                        (* calculateEdgeWildcards; addEdgeWildcardsToNode *)
-                        let s := upd_edge s (id, i) (fun e =>
-                                   match e_wild e, n_wild (node_of (ws_g s) (e_to e)) with
-                                   | [], (_ :: _) as nw => edge_with_wild e nw
-                                   | _, _ => e
-                                   end) in
-                        let s := match edge_at (ws_g s) (id, i) with
-                                 | Some e' => upd_node s id (fun n => edge_wild_to_node n e')
-                                 | None => s
-                                 end in
-                        match err with
-                        | Some x => (tcs ++ tc, Some x, s)
-                        | None => loop k' (S i) (tcs ++ tc) s
-                        end
-                  end
-              end
-          end in
-        loop n_edges 0%nat [] s
-  end
+Definition cresult := (list str * option werr * wstate)%type.
 
-with calc_edge (fuel : nat) (r : eref) (path : list pentry) (s : wstate)
-  : list str * option werr * wstate :=
+(* the loop over the edges of node [id] in calculateNodeWeight...; the recursion into an edge is [rec_edge] *)
+Fixpoint edge_loop (rec_edge : eref -> wstate -> cresult) (id : str) (k : nat) (i : nat) (tcs : list str) (s : wstate)
+  : cresult :=
+  match k with
+  | O =>
+      let '(tcs, r) := from_edges s id tcs in
+      match r with
+      | Ok s => (tcs, None, s)
+      | Err e => (tcs, Some e, s)
+      | Panic _ => (tcs, Some WOutOfFuel, s)
+      end
+  | S k' =>
+      match edge_at (ws_g s) (id, i) with
+      | None => edge_loop rec_edge id k' (S i) tcs s
+      | Some e =>
+          match e_weights e with
+          | _ :: _ => edge_loop rec_edge id k' (S i) tcs s
+          | [] =>
+              let to := node_of (ws_g s) (e_to e) in
+              if is_terminal (n_type to) then
+                let wild := ntype_eqb (n_type to) NWildcard in
+                let label := if wild then drop_last2 (e_to e) else e_to e in
+                let e1 := if wild then add_wild_to_edge label e else e in
+                let s := if wild then upd_node s id (fun n => edge_wild_to_node n e1) else s in
+                let s := st_g s (set_edge (ws_g s) (id, i) (edge_with_weights e1 [(label, 1)])) in
+                edge_loop rec_edge id k' (S i) tcs s
+              else
+                let '(tc, err, s) := rec_edge (id, i) s in
+                (* calculateEdgeWildcards; addEdgeWildcardsToNode *)
+                let s := upd_edge s (id, i) (fun e =>
+                           match e_wild e, n_wild (node_of (ws_g s) (e_to e)) with
+                           | [], (_ :: _) as nw => edge_with_wild e nw
+                           | _, _ => e
+                           end) in
+                let s := match edge_at (ws_g s) (id, i) with
+                         | Some e' => upd_node s id (fun n => edge_wild_to_node n e')
+                         | None => s
+                         end in
+                match err with
+                | Some x => (tcs ++ tc, Some x, s)
+                | None => edge_loop rec_edge id k' (S i) (tcs ++ tc) s
+                end
+          end
+      end
+  end.
+
+Definition mark_visited (s : wstate) (id : str) : wstate :=
+  {| ws_g := ws_g s; ws_visited := ws_visited s ++ [id]; ws_deps := ws_deps s |}.
+
+Definition calc_node_body (rec_edge : eref -> list pentry -> wstate -> cresult) (id : str) (path : list pentry) (s : wstate)
+  : cresult :=
+  if mem_str id (ws_visited s) then ([], None, s)
+  else if is_terminal (n_type (node_of (ws_g s) id)) then ([], None, s)
+  else
+    let s := mark_visited s id in
+    edge_loop (fun r s => rec_edge r path s) id (length (edges_from (ws_g s) id)) 0%nat [] s.
+
+(* the weight of an edge to a node that is not terminal *)
+Definition edge_from_target (e : wedge) (r : eref) (tc : list str) (s : wstate) : cresult :=
+  let tw := n_weights (node_of (ws_g s) (e_to e)) in
+  let is_tc := match tc with [] => false | _ => true end in
+  let s := fold_left (fun s n => add_dep s n r) tc s in
+  let '(w, tc, s) :=
+    fold_left (fun (acc : wmap * list str * wstate) kv =>
+                 let '(w, tc, s) := acc in
+                 if negb is_tc && is_ref_key (fst kv) then
+                   (wset (fst kv) (snd kv) w, tc ++ [strip_ref (fst kv)], add_dep s (strip_ref (fst kv)) r)
+                 else (wset (fst kv) (snd kv) w, tc, s))
+              tw ([], tc, s) in
+  let w := if etype_eqb (e_type e) ETTU || etype_eqb (e_type e) EDirect
+           then map (fun kv => (fst kv, if snd kv =? infinite then snd kv else snd kv + 1)) w
+           else w in
+  (tc, None, upd_edge s r (fun e => edge_with_weights e w)).
+
+Definition calc_edge_body (rec_node : str -> list pentry -> wstate -> cresult) (r : eref) (path : list pentry) (s : wstate)
+  : cresult :=
+  match edge_at (ws_g s) r with
+  | None => ([], None, s)
+  | Some e =>
+      if str_eqb (e_from e) (e_to e) then
+        if etype_eqb (e_type e) ETTU || etype_eqb (e_type e) EDirect then
+          let s := upd_edge s r (fun e => edge_with_weights e [(ref_key (e_to e), infinite)]) in
+          ([e_from e], None, add_dep s (e_to e) r)
+        else ([], Some WModelCycle, s)
+      else
+        let to_type := n_type (node_of (ws_g s) (e_to e)) in
+        let path' := path ++ [(e_from e, e_type e, to_type)] in
+        let '(tc, err, s) := rec_node (e_to e) path' s in
+        match err with
+        | Some x => (tc, Some x, s)
+        | None =>
+            match n_weights (node_of (ws_g s) (e_to e)) with
+            | [] =>
+                if is_tuple_cycle (e_to e) path' then
+                  let s := upd_edge s r (fun e => edge_with_weights e [(ref_key (e_to e), infinite)]) in
+                  (tc ++ [e_to e], None, add_dep s (e_to e) r)
+                else (tc, Some WModelCycle, s)
+            | _ => edge_from_target e r tc s
+            end
+        end
+  end.
+
+(* calculateNodeWeight / calculateEdgeWeight: the knot is tied on fuel *)
+Fixpoint calc_node (fuel : nat) (id : str) (path : list pentry) (s : wstate) : cresult :=
   match fuel with
   | O => ([], Some WOutOfFuel, s)
-  | S f =>
-      match edge_at (ws_g s) r with
-      | None => ([], None, s)
-      | Some e =>
-          if str_eqb (e_from e) (e_to e) then
-            if etype_eqb (e_type e) ETTU || etype_eqb (e_type e) EDirect then
-              let s := upd_edge s r (fun e => edge_with_weights e [(ref_key (e_to e), infinite)]) in
-              ([e_from e], None, add_dep s (e_to e) r)
-            else ([], Some WModelCycle, s)
-          else
-            let to_type := n_type (node_of (ws_g s) (e_to e)) in
-            let path' := path ++ [(e_from e, e_type e, to_type)] in
-            let '(tc, err, s) := calc_node f (e_to e) path' s in
-            match err with
-            | Some x => (tc, Some x, s)
-            | None =>
-                let to := node_of (ws_g s) (e_to e) in
-                match n_weights to with
-                | [] =>
-                    if is_tuple_cycle (e_to e) path' then
-                      let s := upd_edge s r (fun e => edge_with_weights e [(ref_key (e_to e), infinite)]) in
-                      (tc ++ [e_to e], None, add_dep s (e_to e) r)
-                    else (tc, Some WModelCycle, s)
-                | tw =>
-                    let is_tc := match tc with [] => false | _ => true end in
-                    let s := fold_left (fun s n => add_dep s n r) tc s in
-                    let '(w, tc, s) :=
-                      fold_left (fun (acc : wmap * list str * wstate) kv =>
-                                   let '(w, tc, s) := acc in
-                                   if negb is_tc && is_ref_key (fst kv) then
-                                     (wset (fst kv) (snd kv) w, tc ++ [strip_ref (fst kv)], add_dep s (strip_ref (fst kv)) r)
-                                   else (wset (fst kv) (snd kv) w, tc, s))
-                                tw ([], tc, s) in
-                    let w := if etype_eqb (e_type e) ETTU || etype_eqb (e_type e) EDirect
-                             then map (fun kv => (fst kv, if snd kv =? infinite then snd kv else snd kv + 1)) w
-                             else w in
-                    (tc, None, upd_edge s r (fun e => edge_with_weights e w))
-                end
-            end
-      end
+  | S f => calc_node_body (calc_edge f) id path s
+  end
+with calc_edge (fuel : nat) (r : eref) (path : list pentry) (s : wstate) : cresult :=
+  match fuel with
+  | O => ([], Some WOutOfFuel, s)
+  | S f => calc_edge_body (calc_node f) r path s
   end.
 
 (* AssignWeights with the range over wg.nodes replaced by [order] *)
